@@ -3,8 +3,10 @@
 #![allow(dead_code)]
 mod core;
 mod gen;
+mod projects;
 mod props;
 mod run;
+mod sbx;
 #[allow(dead_code)]
 mod ts;
 
